@@ -177,9 +177,16 @@ def skrSerialisable (r : Response) : Res Unit :=
 def signerConfigOf (a : CeremonyArgs) (actions : List (Nat × SchemaAction)) : SignerConfig :=
   { kskKeys := a.kskKeys, kskPolicy := a.kskPolicy, responsePolicy := a.responsePolicy, actions }
 
-/-- Everything `ksrsigner()` does before the write: `ok (some skr)` = every gate passed and `skr` is
-    about to be written; `ok none` = the function returns False; `error _` = an exception. -/
-def ksrsignerCore (ext : Externals) (a : CeremonyArgs) : CerM (Option Response) :=
+/-- what the stages before signing hand over to the signing stage -/
+structure PreSign where
+  actions : List (Nat × SchemaAction)
+  skr : Option Response
+  req : Request
+  mods : List P11Module
+
+/-- Everything up to and including the confirmation — schema, previous SKR, KSR, token
+    initialisation, chain checks, display, prompt.  `ok none` = the function returns False. -/
+def preSign (ext : Externals) (a : CeremonyArgs) : CerM (Option PreSign) :=
   match a.actions with
   | none => pure none
   | some actions => do
@@ -196,11 +203,23 @@ def ksrsignerCore (ext : Externals) (a : CeremonyArgs) : CerM (Option Response) 
         CerM.liftTok (stageChain a req skr mods)
         CerM.emit .display
         let go ← stageConfirm a
-        if !go then pure none else do
-          let newSkr ← CerM.liftTok (createSkr ext mods (signerConfigOf a actions) req)
-          CerM.lift (stagePost a skr newSkr)
-          CerM.lift (skrSerialisable newSkr)
-          pure (some newSkr)
+        if !go then pure none else pure (some { actions, skr, req, mods })
+
+/-- The signing stage: `create_skr`, the publish / retire checks on the result, serialisation. -/
+def signStage (ext : Externals) (a : CeremonyArgs) (p : PreSign) : CerM Response := do
+  let newSkr ← CerM.liftTok (createSkr ext p.mods (signerConfigOf a p.actions) p.req)
+  CerM.lift (stagePost a p.skr newSkr)
+  CerM.lift (skrSerialisable newSkr)
+  pure newSkr
+
+/-- Everything `ksrsigner()` does before the write: `ok (some skr)` = every gate passed and `skr` is
+    about to be written; `ok none` = the function returns False; `error _` = an exception. -/
+def ksrsignerCore (ext : Externals) (a : CeremonyArgs) : CerM (Option Response) := do
+  match ← preSign ext a with
+  | none => pure none
+  | some p => do
+    let newSkr ← signStage ext a p
+    pure (some newSkr)
 
 /-- `ksrsigner(logger, args, config)`: `ok true` = returned True (success), `ok false` = returned
     False, `error _` = an exception left the function.  The write is the last step. -/
